@@ -350,3 +350,108 @@ example : f70Class (.dict [(.str "a", .leaf (.pyNode 1 false)), (.str "b", .leaf
 
 end TaskArgs
 end Pytask
+
+namespace Pytask
+namespace TaskArgs
+open PyTree
+variable {V P : Type}
+
+/-- **kwargs_correct, per parameter.** In a collected task whose `depends_on[name]` is the collected
+declaration `value` (and `name` is not a product), the function's parameter `name` receives
+`value` with every leaf replaced by what its node loads to — same containers, same positions —
+unless `value` lies in the class of finding F70. -/
+theorem C07_param_dependency (params : List String) (dependsOn produces : Dict (T (Node V P)))
+    (hn : (Dict.keys produces).Nodup) (name : String) (value : T (Decl V P))
+    (hd : Dict.get dependsOn name = some (collectDep value)) (hnp : Dict.contains produces name = false)
+    (h70 : f70Class value = false) :
+    Dict.get (kwargsOf params dependsOn produces) name = some (map depObj value) := by
+  rw [C07_kwargs_correct params dependsOn produces hn name, hnp, hd]
+  simp [C07_dep_partial value h70]
+
+/-- A product parameter of the function receives its declared tree with paths as paths and nodes
+as node objects (`is_product=True`), whatever `depends_on` holds under that name. -/
+theorem C07_param_product (params : List String) (dependsOn produces : Dict (T (Node V P)))
+    (hn : (Dict.keys produces).Nodup) (name : String) (value : T (Decl V P)) (nodes : T (Node V P)) (isReturn : Bool)
+    (hp : Dict.get produces name = some nodes) (hc : collectProd isReturn value = .ok nodes) (hparam : name ∈ params) :
+    Dict.get (kwargsOf params dependsOn produces) name = some (map prodObj value) := by
+  rw [C07_kwargs_correct params dependsOn produces hn name]
+  simp [hparam, Dict.contains, hp, C07_prod_correct value nodes isReturn hc]
+
+/-- Products the function has no parameter for — in particular `return` — are not passed. -/
+theorem C07_param_absent (params : List String) (dependsOn produces : Dict (T (Node V P)))
+    (hn : (Dict.keys produces).Nodup) (name : String) (hparam : name ∉ params) (hd : Dict.get dependsOn name = none) :
+    Dict.get (kwargsOf params dependsOn produces) name = none := by
+  rw [C07_kwargs_correct params dependsOn produces hn name]
+  simp [hparam, hd]
+
+end TaskArgs
+end Pytask
+
+namespace Pytask
+namespace TaskArgs
+open PyTree
+variable {V P : Type}
+
+/-- **Dependencies, parse level** (`parse_dependencies_from_task_function`). If no parameter is given a
+value both by `@task(kwargs=…)`/default and by a node annotation, parsing succeeds and
+`depends_on[name]` is the collected declaration found for `name` — `{**defaults, **task_kwargs}`
+first (minus `produces`), the node annotation otherwise — for every name that is neither
+`Product`-annotated nor `return`; other names are absent. -/
+theorem C07_parseDeps (f : Func V P)
+    (hok : f.nodeAnnot.any (fun kv => Dict.contains (Dict.erase f.merged "produces") kv.1) = false) :
+    ∃ d, parseDeps f = .ok d ∧ ∀ name,
+      Dict.get d name =
+        if (f.productAnnot ++ ["return"]).contains name then none
+        else ((Dict.get (Dict.erase f.merged "produces") name).or (Dict.get f.nodeAnnot name)).map collectDep := by
+  refine ⟨_, by simp only [parseDeps, hok]; rfl, ?_⟩
+  intro name
+  rw [Dict.get_map_vals collectDep, Dict.get_filter_key (fun k => !(f.productAnnot ++ ["return"]).contains k),
+    Dict.get_append]
+  by_cases h1 : name ∈ f.productAnnot <;> by_cases h2 : name = "return" <;> simp [h1, h2]
+
+/-- **Products, parse level, without `@task(produces=…)`** (`parse_products_from_task_function`).
+When no name is defined twice and the return declaration holds no plain value, parsing succeeds
+and `produces[name]` is the collected `productValue` of every visited product name (the
+`Product`-annotated parameters, `produces`, `return`) and nothing else. -/
+theorem C07_parseProds (pv : PyVals V) (f : Func V P) (hdeco : f.produces = none)
+    (htwice : (f.productNames.filter (fun n => Dict.contains f.merged n || Dict.contains f.nodeAnnot n)).any
+        (fun n => Dict.contains f.merged n && Dict.contains f.nodeAnnot n) = false)
+    (hret : (f.productNames.filter (fun n => Dict.contains f.merged n || Dict.contains f.nodeAnnot n)).any
+        (fun n => n == "return" && (leaves (f.productValue pv n)).any isPlainValue) = false) :
+    ∃ d, parseProds pv f = .ok d ∧ ∀ name,
+      Dict.get d name =
+        if name ∈ f.productNames ∧ (Dict.contains f.merged name || Dict.contains f.nodeAnnot name) = true
+        then some (map collectLeaf (f.productValue pv name)) else none := by
+  refine ⟨_, by simp only [parseProds, htwice, hret, hdeco]; rfl, ?_⟩
+  intro name
+  rw [Dict.get_foldl_set (fun n => mapWithPath (fun _ d => collectLeaf d) (f.productValue pv n))]
+  simp only [List.mem_filter, mapWithPath_const, Dict.get]
+
+/-- Outside finding F72 (`productValue` falls back only for *falsy* declarations) the value collected
+for a product name is the declared one: `{**defaults, **task_kwargs}[name]`. -/
+theorem C07_productValue (pv : PyVals V) (f : Func V P) (name : String) (v : T (Decl V P))
+    (h : Dict.get f.merged name = some v) (h72 : isFalsy pv v = false) : f.productValue pv name = v := by
+  simp [Func.productValue, h, h72]
+
+end TaskArgs
+end Pytask
+
+namespace Pytask
+namespace TaskArgs
+open PyTree
+variable {V P : Type}
+
+/-- **Products, parse level, with `@task(produces=…)`** — the code as it is (finding F71): the
+products dict consists of the `return` entry alone, whatever product parameters were parsed before. -/
+theorem C07_parseProds_decorator (pv : PyVals V) (f : Func V P) (tp : T (Decl V P)) (c : T (Node V P))
+    (hdeco : f.produces = some tp) (ht : isFalsy pv tp = false) (hc : collectProd true tp = .ok c)
+    (hr : Dict.contains f.nodeAnnot "return" = false)
+    (htwice : (f.productNames.filter (fun n => Dict.contains f.merged n || Dict.contains f.nodeAnnot n)).any
+        (fun n => Dict.contains f.merged n && Dict.contains f.nodeAnnot n) = false)
+    (hret : (f.productNames.filter (fun n => Dict.contains f.merged n || Dict.contains f.nodeAnnot n)).any
+        (fun n => n == "return" && (leaves (f.productValue pv n)).any isPlainValue) = false) :
+    parseProds pv f = .ok [("return", c)] := by
+  simp [parseProds, htwice, hret, hdeco, ht, hc, hr, Generated.taskProducesReplaces]
+
+end TaskArgs
+end Pytask
